@@ -100,14 +100,9 @@ Theorem C14_reader_is_bn_from :
 Proof. exact reader_is_bn_from. Qed.
 Print Assumptions C14_reader_is_bn_from.
 
-(* ---- which strings strconv.str2int accepts ----
-   obligation [str2int_sound]: whatever str2int accepts contains at least one digit (Lua's tonumber / math.tointeger
-   return nil otherwise).  REFUTED as the code is: tointeger('-'), '+', '0x', '0b', ' - ' are 0 *)
-Theorem C14_str2int_sound_refuted : ~ str2int_sound.
-Proof. exact str2int_sound_refuted. Qed.
-Print Assumptions C14_str2int_sound_refuted.
-
-(* what holds today: a result other than 0 comes from a string with a digit *)
-Theorem C14_str2int_sound_partial : forall base s v, nl_str2int base s = Some v -> v <> 0 -> has_digit s.
-Proof. exact str2int_sound_partial. Qed.
-Print Assumptions C14_str2int_sound_partial.
+(* ---- which strings strconv.str2int accepts (after 4928697) ----
+   whatever str2int accepts contains at least one digit: a sign, a base prefix or blanks alone are no numeral (Lua's
+   tonumber / math.tointeger return nil for them) *)
+Theorem C14_str2int_sound : forall base s v, nl_str2int base s = Some v -> has_digit s.
+Proof. exact str2int_sound_holds. Qed.
+Print Assumptions C14_str2int_sound.
